@@ -207,6 +207,8 @@ def r3(ctx):
         b = ctx.body(R, fid)
         if b:
             rm = [bb for bb, t in b.calls(re.compile(r"^indexmap::IndexMap::(swap_remove|shift_remove|remove)$")) if _on_field(b, t["args"][0], "turmoil::host::Tcp::sockets")]
+            if not rm and fid.endswith("close_stream_half"):
+                rm = [bb for bb, t in b.calls("turmoil::host::Tcp::reset_stream")]   # the last half removes the entry through the sibling that removes it outright
             ctx.inst(R, f"{fid}:removes", bool(rm), b.span, "removes the stream entry" if rm else f"`{fid}` never removes the stream entry")
     from . import C12
     C12.r4(ctx)
